@@ -324,6 +324,18 @@ func rootIdent(e ast.Expr) *ast.Ident {
 	}
 }
 
+func calleeOf(info *types.Info, ce *ast.CallExpr) *types.Func {
+	switch f := ast.Unparen(ce.Fun).(type) {
+	case *ast.Ident:
+		fo, _ := info.Uses[f].(*types.Func)
+		return fo
+	case *ast.SelectorExpr:
+		fo, _ := info.Uses[f.Sel].(*types.Func)
+		return fo
+	}
+	return nil
+}
+
 func isFreshExpr(info *types.Info, e ast.Expr) bool {
 	switch x := ast.Unparen(e).(type) {
 	case *ast.CompositeLit, *ast.BasicLit, *ast.FuncLit:
@@ -800,6 +812,24 @@ func (c *funcCtx) scan(body ast.Node) {
 										}
 									}
 								}
+							}
+						}
+					}
+				}
+			}
+			// decoders write through the pointer they are given: Unmarshal(data, sharedPtr) with sharedPtr a package-level
+			// pointer or a pointer-valued field of a shared type (the explicit &e case is handled under UnaryExpr)
+			if fo := calleeOf(c.info, x); fo != nil {
+				nm := fo.Name()
+				if strings.HasPrefix(nm, "Unmarshal") || strings.HasPrefix(nm, "MustUnmarshal") || strings.HasPrefix(nm, "Decode") || strings.HasPrefix(nm, "Sscan") {
+					for _, arg := range x.Args {
+						arg = ast.Unparen(arg)
+						if u, ok := arg.(*ast.UnaryExpr); ok && u.Op == token.AND {
+							continue
+						}
+						if t := c.info.TypeOf(arg); t != nil {
+							if _, isPtr := t.Underlying().(*types.Pointer); isPtr {
+								c.recordAddr(arg, stack)
 							}
 						}
 					}
